@@ -111,7 +111,7 @@ def gen(per, seed):
 
 
 def sh(cmd, **kw):
-    return subprocess.run(cmd, shell=True, capture_output=True, text=True, env=ENV, **kw)
+    return subprocess.run(cmd, shell=True, capture_output=True, text=True, errors='replace', env=ENV, **kw)
 
 
 def verdict_of(out):
